@@ -7,7 +7,7 @@ import os
 from engine import build, irload, runner
 from engine.contracts import Contracts, LibHooks, Layout
 from engine.absval import Int, Ptr, Zero
-from engine.common import need, VERIF
+from engine.common import need, AnalysisBroken, VERIF
 from props import tables as T
 
 NS = {'string': 0x10, 'boolean': 0x20, 'double': 0x40, 'integer': 0x80, 'bytes': 0x100, 'error': 0x2000}
@@ -216,7 +216,14 @@ def run(rep, tier):
         # ---------- (f) verify's verdict on bounded token sequences (extracted machine vs grammar recogniser)
         from props import c02m
         lib2, _ = sc.lib_ir('c02m', defs=('BINSON_PARSER_WITH_PRINT',))
-        c02m.lang_clause(rep, irload.load(lib2), tier)
+        try:
+            c02m.lang_clause(rep, irload.load(lib2), tier)
+        except AnalysisBroken as e:
+            # clause (f) could not be evaluated; violations of the other clauses found above still stand as a verdict
+            if not rep.violations:
+                raise
+            rep.assumptions.append('clause (f) not evaluated on this tree: %s' % e)
+            print('NOTE C02(f) not evaluated: %s' % e)
     rep.coverage.update({
         'rule': '(a) per first byte 0x00..0xff: kind, bytes consumed and error of the decoder equal the grammar table; (b) accepted integer/length sets '
                 'per width equal the shortest-form sets; (c) counters incremented only under their limit guards, depth errors only at the limit; (d) level zeroed before leaving; '
